@@ -8,6 +8,10 @@ ROOT = os.path.dirname(os.path.dirname(os.path.abspath(__file__)))
 
 # id -> (engine, category, technique, text, note, design_ref)
 CHECKS = {
+    "C01": dict(engine="enum", category="exploration", design_ref="DESIGN.md section 7 C01",
+        technique="bounded-exhaustive input x option-set enumeration of NewPacket + the full read-only accessor suite on the real code, error-layer contract observed through a transparent wrapper PacketBuilder",
+        text="Every (first layer, input, option set) case of a finite, completely enumerated space (all strings <=1 byte and a 22-value length-2 grid [thorough: all <=2], constant fills, deviation<=1 neighbourhoods of per-type fixture seeds, every seed x every first layer; 16 option sets) is decoded with recovery on and every read-only accessor is run; panics, crashes (stack overflow, OOM) and stalls are attributed to one case by the worker progress marker; the error-layer contract (failed <=> ErrorLayer!=nil, last layer, exactly one failure layer) is evaluated on every case from the decoders' actual return values.",
+        note="Trusted: Go runtime, RLIMIT_AS/120 s watchdog as the meaning of 'bounded time/memory', the wrapper PacketBuilder (self-checked for transparency on every non-pooled case). Inputs further than one deviation from a fixture are not covered."),
     "C19": dict(engine="enum", category="exploration", design_ref="DESIGN.md section 7 C19",
         technique="bounded-exhaustive input enumeration (all strings <=2 bytes, constant fills, deviation<=1 neighbourhoods of per-type seeds) of the real decoders in crash-attributing worker subprocesses",
         text="Every (first layer, input) case of a finite, completely enumerated space is executed through all three recovery-free entry points (DecodeFromBytes on fresh and re-used values, NewPacket with SkipDecodeRecovery eager/lazy x DSAD, DecodingLayerParser with IgnorePanic); any panic, fatal error, memory blow-up or hang is attributed to one case and keyed by panic site. Exploration level: exhaustive within the stated input bound, silent outside it.",
